@@ -55,6 +55,12 @@ mut("c16_stem_keeps_directory_char", "C16", "an input file outside inputs/ whose
     [("conditionalrewards.py", "    file_name = file_name.split(\"/\")[-1].split(\".\")[0]\n", "    file_name = file_name.split(\"/\")[-1].split(\"_\")[0].split(\".\")[0]\n")])
 mut("c16_reader_coerces_probabilities", "C16", "a file whose probabilities are written as ints (1) - the reader turns them into floats",
     [("conditionalrewards.py", "        dictionary = eval(contents)\n", "        dictionary = eval(contents.replace(\"(1, \", \"(1.0, \"))\n")])
+mut("c16_memoryerror_swallowed_in_save", "C16", "an allocation failure while the report is formatted/written: logged, exit status 0, report torn",
+    [("conditionalrewards.py", "    if parsed_args.save_results:\n        save_results_to_file(game_results, parsed_args.file)\n",
+      "    if parsed_args.save_results:\n        try:\n            save_results_to_file(game_results, parsed_args.file)\n        except MemoryError:\n            logging.error(\"Out of memory while saving the results\")\n")])
+mut("c11_generic_exception_swallowed_in_writer", "C11", "any exception (allocation failure, I/O error) inside the game writers: the file is closed and main() returns normally",
+    [("roberta_generator.py", "    write_preamble(my_file, length, width, moves, rewards, loose_tiles)\n    write_robot_A(my_file, length, width, moves, rewards, loose_tiles, prob_tile_break)\n    write_robot_B(my_file, length, width, moves, rewards, loose_tiles, prob_tile_break,\n                  prob_robot_break)\n    write_robot_C(my_file, length, width, moves, rewards, loose_tiles, prob_tile_break,\n                  prob_robot_break, prob_light_break)\n",
+      "    try:\n        write_preamble(my_file, length, width, moves, rewards, loose_tiles)\n        write_robot_A(my_file, length, width, moves, rewards, loose_tiles, prob_tile_break)\n        write_robot_B(my_file, length, width, moves, rewards, loose_tiles, prob_tile_break,\n                      prob_robot_break)\n        write_robot_C(my_file, length, width, moves, rewards, loose_tiles, prob_tile_break,\n                      prob_robot_break, prob_light_break)\n    except MemoryError:\n        print(\"board too large for this machine\")\n")])
 # ---- C11 -------------------------------------------------------------------
 mut("c11_append_mode", "C11", "the target file already exists (regeneration)",
     [("roberta_generator.py", "    my_file = open(file_name, \"w\")\n", "    my_file = open(file_name, \"a\")\n")])
